@@ -298,7 +298,13 @@ func c09DamagedOpen(c *vk.Ctx, rng *rand.Rand) int {
 	}
 	w.Cleanup()
 	org.SetBody("/damaged.crl", []byte("gone")) // nothing can be fetched again
-	tables, _ := filepath.Glob(filepath.Join(w.WorkDir, "*", "*.ldb"))
+	var tables []string
+	filepath.Walk(w.WorkDir, func(p string, info os.FileInfo, err error) error {
+		if err == nil && !info.IsDir() && filepath.Ext(p) == ".ldb" {
+			tables = append(tables, p)
+		}
+		return nil
+	})
 	c.Set("damaged_open_tables", int64(len(tables)))
 	cases := 0
 	for ti, table := range tables {
